@@ -505,6 +505,21 @@ func (self *Interpreter) memberExpression(node ast.AnalyzedMemberExpression) (*v
 		return nil, i
 	}
 
+	// `->` and `~>` read a field of an any-object by its name, the field may be missing
+	if node.Operator != pAst.DotMemberOperator {
+		field, found := (*base).(value.ValueAnyObject).FieldsInternal[node.Member.Ident()]
+		if node.Operator == pAst.ArrowMemberOperator {
+			if !found {
+				return value.NewNoneOption(), nil
+			}
+			return value.NewValueOption(field), nil
+		}
+		if !found {
+			return nil, value.NewThrowInterrupt(node.Span(), "Called 'unwrap' on a 'null' option value")
+		}
+		return field, nil
+	}
+
 	fields, i := (*base).Fields()
 	if i != nil {
 		return nil, i
